@@ -323,12 +323,17 @@ Qed.
 Lemma guarded_op v o : op_safe v o = true -> guarded [] (prog_of_op v o).
 Proof.
   intros Hs. unfold op_safe in Hs. apply andb_true_iff in Hs. destruct Hs as [Hwf Hc].
-  destruct o as [p|ks ao uo|d isnew|d m|d present]; cbn [prog_of_op].
+  destruct o as [p|ks ao uo|ks|d isnew|d m|d present]; cbn [prog_of_op].
   - apply guarded_batch.
   - cbn in Hwf. rewrite !andb_true_iff in Hwf. destruct Hwf as [[[P _] _] _].
     destruct (v_core v).
     + cbn in Hc. now apply guarded_txn.
     + destruct (memb LCore (part_keys ks)) eqn:M; [reflexivity|]. apply guarded_txn; auto. now rewrite M.
+  - cbn in Hwf. rewrite !andb_true_iff in Hwf. destruct Hwf as [[Nd _] _].
+    assert (G : guarded [] (map Acq ks ++ map Rel (rev ks))).
+    { apply guarded_acqs; [intros x _; now rewrite needs_rels|].
+      rewrite app_nil_r. apply guarded_rels. apply NoDup_rev. now apply nodupb_NoDup. }
+    destruct (v_core v); [exact G|]. destruct (memb LCore ks); [reflexivity | exact G].
   - destruct isnew; cbn; intuition (try discriminate; subst; auto).
   - destruct m as [| | |d']; cbn; rewrite ?N.eqb_refl; cbn; intuition (try discriminate; subst; auto).
   - destruct present; cbn; intuition (try discriminate; subst; auto).
